@@ -580,7 +580,7 @@ func (s *serveTask) RunEvent(time.Time) {
 		x.stuckIn = fmt.Sprintf("Shutdown after a start that failed (%s: %v)", x.sc.FailStart, err)
 		serr := x.srv.Shutdown()
 		x.stuckIn = ""
-		if serr == nil || serr.Error() != "dns: server not started" {
+		if serr == nil {
 			k.Lock()
 			x.res.Fail("S5", "shutdown-after-failed-start", "after a ListenAndServe that failed (%v), Shutdown returned %v instead of reporting that the server is not started", err, serr)
 			k.Unlock()
@@ -698,7 +698,7 @@ func (l *lifeTask) RunEvent(time.Time) {
 	k.WaitSteps("life.wait", sc.ShutAfter, 40*time.Millisecond)
 	c := x.newCall("shutdown", "shutdown-A")
 	x.shutdown(c, sc.ShutKind, sc.CtxMs)
-	if c.err == "dns: server not started" && !x.anyShutdownOK() {
+	if refusedShutdown(c) && !x.anyShutdownOK() {
 		// the server had not started yet: wait for it, then stop it
 		if !k.Wait("life.waitstart", 0, common.Flag{V: &x.notified}, 0) {
 			return
@@ -718,7 +718,7 @@ func (x *run) anyShutdownOK() bool {
 	x.k.Lock()
 	defer x.k.Unlock()
 	for _, c := range x.calls {
-		if c.kind == "shutdown" && c.ret && c.err != "dns: server not started" {
+		if c.kind == "shutdown" && c.ret && !refusedShutdown(c) {
 			return true
 		}
 	}
@@ -754,6 +754,14 @@ func (x *run) fin(b *bool) {
 	x.k.Lock()
 	*b = true
 	x.k.Unlock()
+}
+
+// refusedShutdown: the call came back with an error of its own - not its context's, not what closing the
+// listener reported: it declined to shut anything down. (Which words it uses is not the property's business.)
+//
+//go:norace
+func refusedShutdown(c *call) bool {
+	return c.err != "" && c.err != "context deadline exceeded" && c.err != "context canceled" && c.err != errClose.Error()
 }
 
 // --- clients
@@ -1113,27 +1121,34 @@ func (x *run) judge(outcome string) {
 			shuts = append(shuts, c)
 		}
 	}
-	const notStarted = "dns: server not started"
 	const fatalAcceptErr = "accept tcp 10.0.0.1:53: accept4: too many open files in system"
-	const already = "dns: server already started"
+	// A call is classified by what it did, not by the text of its error: a start that comes back with an error
+	// before any shutdown has been asked for was refused (the one that serves stays until then); a shutdown that
+	// comes back with an error which is neither its context's nor the listener's was refused.
+	firstShut := uint64(1 << 62)
+	for _, c := range shuts {
+		if c.callSeq < firstShut {
+			firstShut = c.callSeq
+		}
+	}
 	// S5 / S4 for starts: exactly one start serves, the others are refused
 	served := 0
 	for _, c := range starts {
-		switch c.err {
-		case already:
-			res.Bump("oracle.S5_start_refused")
-			if d := c.retT.Sub(c.callT); d > time.Second {
-				res.Fail("S5", "start-refusal-slow", "%s was refused only after %v of simulated time", c.name, d)
-			}
-		case "":
+		switch {
+		case c.err == "":
 			served++
 			res.Bump("oracle.S4_serve_nil")
-		case fatalAcceptErr:
+		case c.err == fatalAcceptErr:
 			// the listener broke for good: the serve call reports that
 			served++
 			res.Bump("probe.serve_ended_by_fatal_accept_error")
 			if sc.FatalAccept == 0 {
 				res.Fail("S4", "serve-error", "%s returned %q although the listener never failed", c.name, c.err)
+			}
+		case c.retSeq < firstShut:
+			res.Bump("oracle.S5_start_refused")
+			if d := c.retT.Sub(c.callT); d > time.Second {
+				res.Fail("S5", "start-refusal-slow", "%s was refused only after %v of simulated time", c.name, d)
 			}
 		default:
 			res.Fail("S4", "serve-error", "%s returned %q after shutdown, want nil", c.name, c.err)
@@ -1149,7 +1164,7 @@ func (x *run) judge(outcome string) {
 	var acc *call
 	nacc := 0
 	for _, c := range shuts {
-		if c.err == notStarted {
+		if refusedShutdown(c) {
 			res.Bump("oracle.S5_shutdown_refused")
 			if d := c.retT.Sub(c.callT); d > time.Second {
 				res.Fail("S5", "shutdown-refusal-slow", "%s was refused only after %v of simulated time", c.name, d)
@@ -1165,7 +1180,7 @@ func (x *run) judge(outcome string) {
 	}
 	// an early shutdown (issued before any start call) must have been refused
 	for _, c := range shuts {
-		if c.name == "shutdown-early" && c.err != notStarted {
+		if c.name == "shutdown-early" && !refusedShutdown(c) {
 			first := uint64(1 << 62)
 			for _, s := range starts {
 				if s.callSeq < first {
@@ -1179,7 +1194,7 @@ func (x *run) judge(outcome string) {
 	}
 	// a shutdown called after the accepted one has returned must be refused
 	for _, c := range shuts {
-		if c != acc && c.callSeq > acc.retSeq && c.err != notStarted {
+		if c != acc && c.callSeq > acc.retSeq && !refusedShutdown(c) {
 			res.Fail("S5", "shutdown-after-shutdown", "%s called after %s returned gave %q", c.name, acc.name, c.err)
 		}
 	}
@@ -1346,12 +1361,12 @@ func (x *run) judge(outcome string) {
 		}
 	}
 	for _, c := range shuts {
-		if c.err == notStarted {
+		if refusedShutdown(c) {
 			res.Bump("probe.shutdown_refused")
 		}
 	}
 	for _, c := range starts {
-		if c.err == already {
+		if c.err != "" && c.err != fatalAcceptErr && c.retSeq < firstShut {
 			res.Bump("probe.start_refused")
 		}
 	}
